@@ -138,6 +138,35 @@ theorem C11_present_path_prints_leaf {n : Nat} {g : GoVal} {p : List String} {s 
   simp [printVal, bind, StateT.bind, getHeap, get, getThe, MonadStateOf.get, StateT.get, pure, Except.pure, Except.bind,
     StateT.pure, sprint, strFuel, objStr, ofOpt, emit, modify, modifyGet, MonadStateOf.modifyGet, StateT.modifyGet]
 
+open Pug.Data Pug.Props.C11P in
+/-- **C11 (a path that ends where the data stops prints nothing).** For EVERY Go data tree and EVERY path Go can follow to a nil
+pointer, a nil interface value or Go's nil (relation `Reach`, any depth, through maps, structs, methods, pointers, interfaces):
+the escaped code node over that path appends nothing to the output, raises nothing and leaves the state as it is. (The model
+converts `.iface none` to Nil for every interface type; that this is what `convert()` does is the regenerated skeleton
+`C11_convert_skeleton` - the two lines `if val.IsNil()` / `return Nil{}` at the head of the `reflect.Interface` case - and the
+behind-interface bucket of the correspondence.) -/
+theorem C11_path_to_nil_prints_nothing {n : Nat} {g : GoVal} {p : List String} {r : GoVal} (hr : Reach n g p r)
+    (hnil : r = .nil ∨ r = .ptr none ∨ r = .iface none)
+    (hn : n < goFuel) (h0 : Heap) (st : St) (recv : TExpr) (fuel : Nat) (env : Env)
+    (hrecv : evalExpr (fuel + 1) recv st = .ok ((convertGo g h0).2, st)) (hext : Ext (convertGo g h0).1 st.heap) :
+    walk (fuel + 2 + p.length) env (.print (pathOf recv p) true) st = .ok ((), st) := by
+  have hl : leafVal r = some .nil := by rcases hnil with h | h | h <;> subst h <;> rfl
+  have := C11_present_path hr .nil hl hn h0 st recv fuel hrecv hext
+  rw [show fuel + 2 + p.length = (fuel + 1 + p.length) + 1 by omega]
+  simp only [walk, bind, StateT.bind, this, Except.bind]
+  exact (C11_absent_prints_nothing st).1
+
+/-! non-vacuity: a struct whose field `None` (declared with a non-empty interface type) holds nil, behind a pointer in a map:
+`x.scene.none` reaches the nil interface value -/
+open Pug.Data Pug.Props.C11P in
+example : Reach 3 (.map [("scene", .ptr (some (.struct [("Main", true, .iface (some (.str "m"))), ("None", true, .iface none)] [])))])
+    ["scene", "none"] (.iface none) := by
+  refine @Reach.key 2 [] [] "scene" _ ["none"] _ (by decide) (by decide) (Reach.ptr ?_)
+  have h1 : lowerFirst "Main" = "main" := by decide
+  have h2 : lowerFirst "None" = "none" := by decide
+  exact @Reach.field 0 _ _ [("main", .iface (some (.str "m")))] [] "none" (.iface none) [] _ (by simp [structEntries, h1, h2]) (by decide) (by decide)
+    (by decide) (Reach.here _)
+
 /-! non-vacuity: a map holding a pointer to a struct whose field `Name` and method `Title` are reached by `x.item.name` /
 `x.item.title`, next to other entries -/
 open Pug.Data Pug.Props.C11P in
